@@ -21,7 +21,7 @@ by 1e9 is saturating and flows into a saturating add with the operation's timest
 Record.ttl_expiry (C10) and recovery stores the parsed value back unchanged; migration opens its source with TTL
 filtering off. Not decided: wall-clock behaviour, sweeper interleavings.
 """
-DECIDED = ["a TTL-only generation's borrowed disk read pins, loads and verifies against the generation that owns the extent (shared with C08.pin)", "(a) one strict expiry predicate", "(b) lazy check before any bytes are returned", "(c) re-validation under the guard; recovery order",
+DECIDED = ['the TTL-only generation links its predecessor as value source (constructor pins shared with C13.fields)', "a TTL-only generation's borrowed disk read pins, loads and verifies against the generation that owns the extent (shared with C08.pin)", "(a) one strict expiry predicate", "(b) lazy check before any bytes are returned", "(c) re-validation under the guard; recovery order",
            "(d) saturating expiry arithmetic", "(e) parsed expiry stored unchanged by recovery",
            'the lazy expiry test reads the clock inside resolve_record_value, never a caller-supplied now']
 NOT_DECIDED = ["(f) wall-clock behaviour / timing", "sweeper vs writer interleavings"]
@@ -308,7 +308,16 @@ def check_ttl_borrow(ctx):
     C08.check_pin(ctx, "C11.ttl-borrow")
 
 
+def check_ttl_source(ctx):
+    """the TTL-only generation links *its predecessor* as value source (Arc::downgrade of the constructor's predecessor argument):
+    the retirement licence walks predecessor -> successor, so a link that skips a generation can point at an extent that is
+    retired as soon as the skipped generation becomes durable (same constructor pins as C13.fields)"""
+    from rules import C13
+    C13.check_record_fields(ctx, "C11.ttl-source")
+
+
 def check(ctx):
+    check_ttl_source(ctx)
     check_ttl_borrow(ctx)
     check_indexes(ctx)
     check_pred(ctx)
